@@ -2,6 +2,7 @@
 
 mod c02;
 mod c03;
+mod c04;
 mod c07;
 mod c08;
 mod c14;
@@ -24,6 +25,7 @@ pub fn replay_dispatch(prop: &str, layer: &str, case: &serde_json::Value) -> Res
     match prop {
         "C02" => c02::replay(layer, case),
         "C03" => c03::replay(layer, case),
+        "C04" => c04::replay(layer, case),
         "C07" => c07::replay(layer, case),
         "C08" => c08::replay(layer, case),
         "C14" => c14::replay(layer, case),
@@ -121,6 +123,7 @@ fn main() {
     match prop.as_str() {
         "C02" => c02::run(&mut run, &ctx),
         "C03" => c03::run(&mut run, &ctx),
+        "C04" => c04::run(&mut run, &ctx),
         "C07" => c07::run(&mut run, &ctx),
         "C08" => c08::run(&mut run, &ctx),
         "C14" => c14::run(&mut run, &ctx),
